@@ -96,7 +96,7 @@ ConnFaults(D, m, inst, c) ==
                        \* be): the property lists no such rule either way
                        IF inst.kind = "array" /\ {x[1] : x \in A} = {x[1] : x \in B}
                           /\ \A x \in A : \E y \in B : y[1] = x[1] /\ x[2] \in {y[2], y[2] * inst.arr}
-                       THEN {"array_bundle_member_per_element"} ELSE {"bundle_mismatch"}
+                       THEN {"array_bundle_member_per_element", "reference_cycle_through_slice_or_concat"} ELSE {"bundle_mismatch"}
                   ELSE {})
        ELSE IF IsSigLike(D, m, c.t)
        THEN LET w == Width(D, m, c.t) IN
@@ -132,6 +132,16 @@ PrefsStrict(t) == CASE t.k = "pref"  -> {<<t.inst, t.port>>}
                     [] t.k = "cat"   -> UNION {PrefsStrict(t.parts[k]) : k \in 1..Len(t.parts)}
                     [] t.k = "anon"  -> UNION {PrefsStrict(t.mem[k].t) : k \in 1..Len(t.mem)}
                     [] OTHER -> {}
+(* reference cycles that pass through a slice or a concatenation (i0.a = i1.a; i1.a = i0.a[0]): plain reference cycles denote one implicit
+   net, but what a port that is a slice of itself should mean is nowhere said - left open *)
+RECURSIVE ReachP(_, _, _)
+ReachP(E, S, fuel) == IF fuel = 0 THEN S ELSE
+                      LET S2 == S \cup {e[2] : e \in {x \in E : x[1] \in S}} IN IF S2 = S THEN S ELSE ReachP(E, S2, fuel - 1)
+SlicedRefCycle(m) ==
+  LET E  == UNION {UNION {{<< <<i.n, i.conns[k].p>>, q >> : q \in Prefs(i.conns[k].t)} : k \in 1..Len(i.conns)} : i \in Range(m.insts)}
+      ES == UNION {UNION {{<< <<i.n, i.conns[k].p>>, q >> : q \in Prefs(i.conns[k].t) \ (IF i.conns[k].t.k = "pref" THEN Prefs(i.conns[k].t) ELSE {})}
+                          : k \in 1..Len(i.conns)} : i \in Range(m.insts)}
+  IN \E e \in ES : e[1] \in ReachP(E, {e[2]}, Cardinality(E) + 1)
 ModFaults(D, mn) ==
   LET m == D.mods[mn]
       refs == UNION {UNION {Prefs(i.conns[k].t) : k \in 1..Len(i.conns)} : i \in Range(m.insts)}
@@ -145,6 +155,7 @@ ModFaults(D, mn) ==
      \cup (IF srefs \cap ncports # {} THEN {"noconn_port_is_referenced"}
            ELSE IF refs \cap ncports # {} THEN {"noconn_port_mentioned_below_slice_of_concat"} ELSE {})
      \cup (IF Cardinality(Range(names)) # Len(names) THEN {"duplicate_name"} ELSE {})
+     \cup (IF SlicedRefCycle(m) THEN {"reference_cycle_through_slice_or_concat"} ELSE {})
 
 RECURSIVE Reach(_, _, _)      \* modules reachable from mn; depth-bounded so that cycles terminate
 Reach(D, mn, fuel) ==
@@ -166,7 +177,7 @@ AnyLenient(D) == \E mn \in Reach(D, D.top, NMods(D)) : \E i \in Range(D.mods[mn]
 
 (* rules whose violation C02 does not list among the faults that must be rejected: nothing is demanded of such designs *)
 Unlisted == {"noconn_in_concat", "noconn_in_anon_bundle", "noconn_on_array_or_pair_bundle_port", "slice_of_bundle", "bundle_in_concat",
-             "duplicate_connection", "empty_array", "duplicate_name", "noconn_port_mentioned_below_slice_of_concat", "array_bundle_member_per_element"}
+             "duplicate_connection", "empty_array", "duplicate_name", "noconn_port_mentioned_below_slice_of_concat", "array_bundle_member_per_element", "reference_cycle_through_slice_or_concat"}
 
 Status(D) == LET f == FaultClauses(D) IN
              IF f \ Unlisted # {} THEN "fault"
